@@ -197,5 +197,36 @@ def main(tier):
     fv = format_pass(chk, tier, "content")
     llw_disk_check(chk, fv, 150 if tier == "quick" else 3000)
     fv.unlink(missing_ok=True)
+    deep_nesting(chk)
     chk.assumptions = ["comparison of comment tokens ignores trailing blanks of a line comment (layout, not content)"]
     chk.finish(RULE, min_nontrivial=3000)
+
+
+def deep_nesting(chk):
+    """nesting depth is a dimension the layout generator does not reach (regex depth <= 5): parentheses / options / mixed,
+    nested 10 ... 600 deep, through the real formatter in both profiles"""
+    from ..tools import Probe
+    depths = [10, 40, 100, 120, 126, 127, 128, 160, 250, 600]
+    for profile in ("dev", "release"):
+        p = Probe(profile)
+        for shape in ("paren", "opt", "mixed"):
+            for n in depths:
+                if shape == "paren":
+                    body = "(" * n + "A" + ")" * n
+                elif shape == "opt":
+                    body = "[" * n + "A" + "]" * n
+                else:
+                    body = "".join("([{"[i % 2] for i in range(n)) + "A" + "".join(")]"[(n - 1 - i) % 2] for i in range(n))
+                text = "token A;\nstart s;\ns: " + body + ";\n"
+                rep = p.ask("format", text=text)
+                chk.case(("deep", shape, n, profile), True)
+                chk.count("deep_nesting_texts")
+                wit = {"text": text if n <= 130 else f"<{shape} nested {n} deep>", "shape": shape, "depth": n, "profile": profile}
+                if "died" in rep:
+                    chk.violation(f"deep-nesting:process-died", f"formatter process died (rc={rep['died']}) on {shape} nested {n} deep ({profile})", wit)
+                    p = Probe(profile)
+                elif rep.get("panic"):
+                    chk.violation("deep-nesting:panic", f"formatter panics on {shape} nested {n} deep ({profile}): {rep['panic'].get('msg', '')[:100]}", dict(wit, panic=rep["panic"]))
+                elif rep.get("problems") or rep.get("idempotent") is False:
+                    chk.violation("deep-nesting:content", f"formatter changes content / is not idempotent on {shape} nested {n} deep ({profile}): {rep.get('problems')}", wit)
+        p.close()
